@@ -225,6 +225,17 @@ func solveAll(prelude string, encs []*FnEnc, dir string, timeoutSec, workers int
 					// conjunctive goals are proved conjunct by conjunct (one query each)
 					parts := splitGoal(j.ob.Goal)
 					head := b.String()
+					// the same query without the scoped theory axioms (sound: fewer assumptions);
+					// tried first because the axioms slow trivial goals down
+					headLite := ""
+					if j.f.theoryEnd > j.f.theoryStart && j.f.theoryEnd <= j.ob.Pos {
+						var lb strings.Builder
+						lb.WriteString(prelude)
+						lb.WriteString(full[:j.f.theoryStart])
+						lb.WriteString(full[j.f.theoryEnd:j.ob.Pos])
+						fmt.Fprintf(&lb, "\n; obligation %s (without theory axioms)\n(assert %s)\n", j.ob.Name, j.ob.At)
+						headLite = lb.String()
+					}
 					var agg *SolveResult
 					for pi, part := range parts {
 						pf := file
@@ -232,7 +243,20 @@ func solveAll(prelude string, encs []*FnEnc, dir string, timeoutSec, workers int
 							pf = strings.TrimSuffix(file, ".smt2") + fmt.Sprintf(".p%d.smt2", pi)
 						}
 						script := head + fmt.Sprintf("(assert (not %s))\n(check-sat)\n", part)
-						r := discharge(script, pf, tmo, false, order)
+						var r *SolveResult
+						if headLite != "" && !mentionsTheory(part) {
+							lt := 8
+							if tmo < lt {
+								lt = tmo
+							}
+							r = discharge(headLite+fmt.Sprintf("(assert (not %s))\n(check-sat)\n", part), strings.TrimSuffix(pf, ".smt2")+".lite.smt2", lt, false, []int{1, 0})
+							if r.Status != "unsat" {
+								r = nil
+							}
+						}
+						if r == nil {
+							r = discharge(script, pf, tmo, false, order)
+						}
 						if r.Status != "unsat" && r.Status != "sat" {
 							r2 := discharge(script, pf, tmo, false, []int{2})
 							r.Tried = append(r.Tried, r2.Tried...)
@@ -341,4 +365,15 @@ func splitSX(x *SX) []*SX {
 		}
 	}
 	return []*SX{x}
+}
+
+var theoryWords = []string{"(cat ", "(blen ", "(take ", "(drop ", "(uv ", "encElems", "encLinks", "EncNode", "encList", "(lay ", "(pow ", "(ord ", "Sorted", "TopSorted", "msh", "uvVal", "uvLen", "decElems", "bcmp"}
+
+func mentionsTheory(goal string) bool {
+	for _, w := range theoryWords {
+		if strings.Contains(goal, w) {
+			return true
+		}
+	}
+	return false
 }
